@@ -218,6 +218,13 @@ def judgeable(program, frame):
                 unit = dt.unit
             elif getattr(dt, "kind", None) in "Mm":
                 unit = np.datetime_data(dt)[0]
+            kind0 = getattr(dt, "kind", None) or ("i" if str(dt)[:3] in ("Int", "UIn") else None)
+            if isinstance(v, list) and kind0 in ("i", "u"):
+                # isin() with a list that mixes floats and integers compares through float64: exact only below 2**53
+                has_float = any(isinstance(x, (float, np.floating)) for x in v)
+                big = any(isinstance(x, (int, np.integer)) and not isinstance(x, (bool, np.bool_)) and abs(int(x)) >= 2 ** 53 for x in v)
+                if has_float and (big or (len(frame) and int(np.abs(frame[c].dropna().astype("float64")).max() if len(frame[c].dropna()) else 0) >= 2 ** 53)):
+                    raise Unorderable("list mixing floats and integers against 64-bit integers beyond 2**53 (compared through float64)")
             for x in vals:
                 if unit and unit != "ns" and isinstance(x, (pd.Timestamp, np.datetime64, datetime.datetime, pd.Timedelta, np.timedelta64)):
                     n = norm(x)
